@@ -1276,3 +1276,83 @@ def prime_tracked(check: Check, repo: Repo, mods: list[Module], rule: str = "PRI
                          f"`{recv}` is primed but its pending future is not registered with track_incremental_future in this function")
     if n < 1:
         raise AnalysisError("PRIME-TRACKED: no Computation.prime() call site found outside computation.py")
+
+
+# -- C03: the runtime type check precedes sub-field execution on the async path too ------------------
+
+
+def typecheck_before_subfields(check: Check, repo: Repo, rule: str = "TYPECHECK-FIRST") -> None:
+    check.rule(
+        rule,
+        "in Executor.complete_object_value (and the coroutine it defines for an awaitable is_type_of) no call "
+        "of collect_and_execute_subfields is reachable from the point where `is_type_of` is known without "
+        "passing a branch on its (awaited) value: sub-field resolvers never run on a value the type check "
+        "rejects, so the asynchronous and the synchronous assignment of is_type_of produce the same errors",
+    )
+    outer = repo.func("execution.executor", "Executor.complete_object_value")
+    scopes = [outer] + [n for n in ast.walk(outer) if isinstance(n, FuncDef) and n is not outer]
+    n = 0
+    for scope in scopes:
+        calls = [c for c in walk_body(scope) if isinstance(c, ast.Call) and last_attr(c) == "collect_and_execute_subfields"]
+        if not calls:
+            continue
+        cfg = CFG(scope)
+
+        def is_type_test(nd) -> bool:
+            if nd.kind != "test" or nd.ast is None:
+                return False
+            names = {x.id for x in ast.walk(nd.ast) if isinstance(x, ast.Name)}
+            if "is_type_of" not in names:
+                return False
+            e = nd.ast
+            if isinstance(e, ast.Call) and last_attr(e) in ("is_awaitable", "default_is_awaitable"):
+                return False
+            return True
+
+        if scope is outer:
+            starts = [nd for s in walk_body(scope) if isinstance(s, ast.Assign) and any(isinstance(t, ast.Name) and t.id == "is_type_of" for t in s.targets)
+                      for nd in cfg.nodes_of(s)]
+        else:
+            starts = [cfg.entry]
+        if not starts:
+            raise AnalysisError("complete_object_value: assignment of is_type_of not found")
+        for c in calls:
+            goals = set(cfg.node_for_expr(c))
+            path = None
+            for st in starts:
+                path = cfg.find_path(st, lambda nd: nd in goals, follow=no_exc, avoid=is_type_test)
+                if path:
+                    break
+            n += 1
+            check.ob(rule, c, f"{scope.name}: collect_and_execute_subfields after the is_type_of test", path is None,
+                     "every path from the point is_type_of is known passes a branch on it" if path is None else
+                     "sub-fields are executed before the type check decided: " + cfg.describe_path(path))
+    if n < 2:
+        raise AnalysisError("TYPECHECK-FIRST: expected the sync and the async sub-field call")
+
+
+# -- C03: what counts as awaitable ---------------------------------------------------------------------
+
+
+def awaitable_kinds(check: Check, repo: Repo, rule: str = "AWAITABLE-KINDS") -> None:
+    check.rule(
+        rule,
+        "pyutils.is_awaitable.is_awaitable accepts the three kinds of objects an `await` accepts (the "
+        "definition of inspect.isawaitable): native coroutines (CoroutineType), generator-based coroutines "
+        "(GeneratorType whose code has CO_ITERABLE_COROUTINE, i.e. @types.coroutine) and objects with "
+        "__await__; a resolver returning a kind the predicate misses is completed as a plain value while the "
+        "same resolver written as `async def` is awaited - the sync/async assignments then differ in data",
+    )
+    fn = repo.func("pyutils.is_awaitable", "is_awaitable")
+    rets = [r for r in walk_body(fn) if isinstance(r, ast.Return) and r.value is not None]
+    text = " ".join(unparse(r.value) for r in rets)
+    calls = [c for r in rets for c in ast.walk(r.value) if isinstance(c, ast.Call)]
+    delegates = any(call_name(c) in ("inspect.isawaitable", "isawaitable") for c in calls)
+    isinst = {unparse(c.args[1]) for c in calls if call_name(c) == "isinstance" and len(c.args) == 2}
+    kinds = {
+        "native coroutine (CoroutineType)": delegates or any("CoroutineType" in t for t in isinst),
+        "generator-based coroutine (GeneratorType & CO_ITERABLE_COROUTINE)": delegates or (any("GeneratorType" in t for t in isinst) and "CO_ITERABLE_COROUTINE" in text),
+        "object with __await__": delegates or any(call_name(c) == "hasattr" and len(c.args) == 2 and isinstance(c.args[1], ast.Constant) and c.args[1].value == "__await__" for c in calls),
+    }
+    for kind, ok in kinds.items():
+        check.ob(rule, fn, f"is_awaitable accepts: {kind}", ok, "tested in the returned disjunction" if ok else "no disjunct of the returned expression accepts this kind")
